@@ -82,8 +82,49 @@ func (e *Engine) resetAtRest(c *Config) {
 			f.loops[i].unw = 0
 			f.loops[i].iter = 0
 		}
+		// drop registers that no instruction reachable from here can read (conservative liveness):
+		// fewer values to ite-merge when resting configs are merged
+		live := e.usedFrom(f.fn, f.blk)
+		for k := range f.regs {
+			if !live[k] {
+				delete(f.regs, k)
+			}
+		}
 	}
 	c.fuel = false
+}
+
+// usedFrom: values read by some instruction in a block reachable from b (including b).
+func (e *Engine) usedFrom(fn *ssa.Function, b *ssa.BasicBlock) map[ssa.Value]bool {
+	key := fmt.Sprintf("%p/%d", fn, b.Index)
+	if m, ok := e.usedMemo[key]; ok {
+		return m
+	}
+	m := map[ssa.Value]bool{}
+	seen := map[*ssa.BasicBlock]bool{}
+	st := []*ssa.BasicBlock{b}
+	if fn.Recover != nil {
+		st = append(st, fn.Recover)
+	}
+	for len(st) > 0 {
+		x := st[len(st)-1]
+		st = st[:len(st)-1]
+		if seen[x] {
+			continue
+		}
+		seen[x] = true
+		for _, ins := range x.Instrs {
+			var ops []*ssa.Value
+			for _, op := range ins.Operands(ops) {
+				if *op != nil {
+					m[*op] = true
+				}
+			}
+		}
+		st = append(st, x.Succs...)
+	}
+	e.usedMemo[key] = m
+	return m
 }
 
 // loopMayAlloc: may the body of the loop with header h (transitively) execute a site that names an
@@ -390,6 +431,11 @@ func (e *Engine) runHarness(h *ssa.Function) *SchedInfo {
 	}
 	si.AnyEnT = anyEn
 	si.AliveT = alive
+	if e.maxDefaults >= 0 {
+		// fairness assumption: schedules in which non-blocking selects fall through to default more
+		// often than the stated bound are excluded
+		e.constraints = append(e.constraints, Ule(e.defaultCount, BV(uint64(e.maxDefaults), 8)))
+	}
 	e.porConstraints(si)
 	// finally functions: evaluated in quiescent final states
 	if len(e.finallyFns) > 0 {
